@@ -85,7 +85,7 @@ theorem cinv_step (l : Label) (s s' : St) (h : CInv s) (hs : step l s = some s')
       · exact ⟨by simp, fun ha hle => by simp at ha hle; omega⟩
       · exact ⟨by simp, fun ha => by simp at ha⟩
     · simp at hs
-  | wBegin w i | wLoadNext w | wLook w | wClaim w | wFixNext w | wNotify w | iterNext =>
+  | wBegin w i | wLoadNext w | wLook w | wClaim w | wFixNext w | wNotify w | iterNext | dropNext =>
     simp only [step] at hs
     (repeat' split at hs) <;>
       first | (simp only [Option.some.injEq] at hs; subst hs; exact ⟨c1, c2⟩) | (simp at hs)
